@@ -18,6 +18,7 @@
 import RotoV.Lemmas.TraceSpec
 import RotoV.Lemmas.LowerSim
 import RotoV.Lemmas.TraceSpecMono
+import RotoV.Lemmas.LowerTotal
 import RotoV.Props.C01Dce
 
 namespace RotoV.C08
@@ -288,15 +289,26 @@ theorem run_fuel_independent (fns : List FnDef) (args : List Val) (fuel fuel' : 
   with the `_` arms woven in in source order, binders assigned before the
   guard, shared arm blocks, the default chain only when some variant has no
   case of its own).
-  What keeps the `_partial`: `lowerE` is undefined (and the theorem silent) for
-  a `match` whose patterns name a variant the examinee's type does not have
-  and for a compound assignment with a comparison operator (both ill-typed);
+  What keeps the `_partial`: `lowerE` is undefined (and the theorem silent)
+  exactly for a `match` whose patterns name a variant the examinee's type does
+  not have and for a compound assignment with a comparison operator (both
+  ill-typed; `lowerProg_defined`);
   the model leaves out `drop` instructions and the `stack_slots` bookkeeping
   (no effect on host calls); lists are shared handles and the model has no
   heap — the `push` through the cloned handle carries the temporary it was
   cloned from as a ghost annotation; the layout of structured MIR as a label
   CFG is done by the driver for the comparison with the real MIR, not by a
   proved function. -/
+
+open RotoV.LowerS in
+/-- **The fragment is the whole core language** minus two ill-typed shapes: if no
+    function body contains a compound assignment with a comparison operator or
+    a `match` pattern naming a variant the examinee's type does not have
+    (`shapedB`), the lowering model is defined on the whole program — so the
+    hypothesis `lowerProg fns = some P` of the theorems below is met. -/
+theorem lowerProg_defined (fns : List FnDef) (h : ∀ fd ∈ fns, shapedB fd.body = true) :
+    ∃ P, lowerProg fns = some P :=
+  Option.isSome_iff_exists.mp (lowerProg_total fns h)
 
 open RotoV.LowerS in
 /-- Expression level: running the code emitted for `e` and then evaluating the
@@ -544,6 +556,8 @@ example : (lowerFn demoFn7).isSome = true := by decide
 example : bodyValue (evalBlock [] 40 [(0, .int 4)] demoFn7.body).out = some (.int 9) := by decide
 example : (evalBlock [] 40 [(0, .int 4)] demoFn7.body).tr
     = [⟨0, [.int 1, .int 4]⟩, ⟨0, [.int 2, .int 4]⟩, ⟨0, [.int 2, .int 5]⟩] := by decide
+-- lowerProg_defined: the two-function program is well shaped
+example : ∀ fd ∈ demoProg, shapedB fd.body = true := by decide
 -- run_fuel_independent: the hypothesis holds at fuel 40
 example : (run demoProg 40 [.int 5]).result ≠ .fuel := by decide
 -- lowerS_run_partial: `run` on the two-function program above
